@@ -366,6 +366,8 @@ input length (x).
 */
 func (r *nodeConfig) setStringSliceEncap(x []string) {
 	switch len(x) {
+	case 0:
+		// nothing to add
 	case 1:
 		r.setStringSliceEncapOne(x)
 	default:
